@@ -1,5 +1,35 @@
-From Coq Require Import List NArith.
-From FV Require Import Mem.Shard Mem.Cache.
-Theorem c17_placeholder : usage (init_shard 5) = 0%N.
-Proof. reflexivity. Qed.
-Print Assumptions c17_placeholder.
+(* C17  Hash collisions between distinct keys never alias their entries (memory tier).
+   The hash function is an arbitrary parameter of the cache model: it only selects the shard. *)
+From Coq Require Import List NArith Bool.
+From FV Require Import Mem.Shard Mem.Cache Mem.ShardRefs Mem.ShardThms.
+Import ListNotations.
+Open Scope N_scope.
+
+(* whatever the hash function, in every reachable cache state a lookup of k yields only a record
+   whose key is k (and which was admitted) *)
+Theorem c17_mem_own_key : forall hash c total n ops cs s k i,
+  good c -> crun hash c (init_cache total n) ops = Some cs -> In s cs ->
+  lookup k (idx s) = Some i -> rkey (get_rec s i) = k /\ rphantom (get_rec s i) = false.
+Proof.
+  intros hash c total n ops cs s k i Hg H Hin Hl.
+  assert (HC : CInv c cs) by (eapply CInv_crun; eauto; apply CInv_init).
+  unfold CInv in HC. rewrite Forall_forall in HC. eapply lookup_own_key; eauto.
+Qed.
+Print Assumptions c17_mem_own_key.
+
+(* both of two keys are stored: inserting k leaves every other key k' (colliding or not) findable
+   with its own record unless k' itself is chosen as a victim, and k is findable afterwards *)
+Theorem c17_both_stored : forall c s k v w hsh low h vs s' k',
+  insert c s k v w hsh low false h vs = Some s' -> k' <> k -> ~ In k' vs ->
+  lookup k' (idx s') = lookup k' (idx s) /\ lookup k (idx s') = Some (length (arena s)).
+Proof.
+  intros. split; [eapply insert_other_key; eauto | eapply insert_finds_new; eauto].
+Qed.
+Print Assumptions c17_both_stored.
+
+Example c17_nonvacuous :
+  (* hash collapses every key to 0: both keys live in shard 0 and keep their own values *)
+  exists cs, crun (fun _ => 0) (mkCfg false false false false) (init_cache 4 2)
+               [OInsert 7 70 1 0 false false 1 []; OInsert 9 90 1 0 false false 2 []] = Some cs
+             /\ map (fun s => map fst (idx s)) cs = [[9; 7]; []].
+Proof. eexists. split; [vm_compute; reflexivity|reflexivity]. Qed.
